@@ -30,6 +30,10 @@ def button_script(in_loop: bool, nreads: int, form: str = "write"):
     lines.append("while True:")
     if in_loop:
         lines.append("    btn = Button(7, on_click=on_press)")
+    if form == "redecl":     # the same name bound again WITHOUT a handler: the first handler must be gone (host: a new Button object)
+        i = lines.index("btn = Button(7, on_click=on_press)") if not in_loop else None
+        if i is not None:
+            lines.insert(i + 1, "btn = Button(7)")
     if form == "while":      # the sampled state is also used as a condition of nested control flow: still one sample per pass
         lines += ["    k = 0", "    while btn.is_pressed() and k < 2:", "        k += 1", "    if btn.is_pressed():", "        k += 1"]
     for _ in range(nreads):
@@ -83,6 +87,9 @@ def run(ctx: Ctx) -> int:
         src = button_script(in_loop, 1, "while")
         for sig in rng.sample(sigs, min(len(sigs), ctx.n(12, 60))):
             bjobs.append((in_loop, 1, src, sig))
+    src_redecl = button_script(False, 1, "redecl")
+    for sig in rng.sample(sigs, min(len(sigs), ctx.n(12, 60))):
+        bjobs.append((False, 1, src_redecl, sig))
     # pinned finding witness: button declared in the loop body, held at power-up
     bjobs.append((True, 1, button_script(True, 1), [1, 1, 0, 1]))
 
@@ -137,10 +144,15 @@ def run(ctx: Ctx) -> int:
         cpp, exc = cxx.transpile(s)
         cpps[s] = (cpp, exc)
     runs = []   # (kind, job, src, passes, inputs)
+    STARTS = {}
     for j in bjobs:
         runs.append(("button", j, j[2], len(j[3]) - (0 if j[0] else 1), "d 7 " + " ".join(map(str, j[3]))))
     for j in ujobs:
-        runs.append(("ultra", j, ultra_script(j[0]), j[1], "p 6 " + " ".join(map(str, j[2])) + "\nt " + " ".join(map(str, j[3]))))
+        # a quarter of the runs start just before the millisecond counter wraps (host `unsigned long` is 64-bit: same arithmetic, other modulus);
+        # their traces are read relative to the start value, so models and monitors see the same times as in an unwrapped run
+        start = (2 ** 64 - rng.choice([7, 31, 59, 61, 100, 250, 1000])) if rng.random() < 0.25 else 0
+        runs.append(("ultra", j, ultra_script(j[0]), j[1], "p 6 " + " ".join(map(str, j[2])) + "\nt " + " ".join(map(str, j[3])) + (f"\nT {start}" if start else "")))
+        STARTS[len(runs) - 1] = start
     for j in pjobs:
         runs.append(("pot", j, j[1], 3, "a 14 " + " ".join(map(str, j[2]))))
     jobs = []
@@ -153,6 +165,16 @@ def run(ctx: Ctx) -> int:
             jobs.append((cpp, max(passes, 0), inputs))
     results = iter(cxx.run_many(ctx, [j for j in jobs if j is not None]))
     results = [next(results) if j is not None else None for j in jobs]
+    for idx, st in STARTS.items():
+        r = results[idx]
+        if st and r is not None and r.trace:
+            absolute = [int(l.split()[1]) for l in r.trace if l.startswith("millis ")]
+            if 0 in absolute:
+                results[idx] = None            # the helper uses 0 as "never triggered": a stamp exactly at the wrap is outside what is checked here
+                ctx.count("ultra:wrap-run-skipped (stamp exactly 0)")
+                continue
+            r.trace[:] = [("millis %d" % ((int(l.split()[1]) - st) % 2 ** 64)) if l.startswith("millis ") else l for l in r.trace]
+            ctx.count("ultra:run-across-counter-wrap")
 
     reqs = []
     for kind, j, src, passes, inputs in runs:
@@ -180,7 +202,8 @@ def run(ctx: Ctx) -> int:
             setup_reads, ps = button_canon(res.trace, nreads)
             impl = " ".join(f"c{min(p['click'], 1)}v{1 if (p['vals'] and p['vals'][0]) else 0}" for p in ps)
             ctx.case(req + f"|{nreads}", nontrivial=any(sig), sample={"script": src, "signal": sig, "model": m} if len(ctx.cov["samples"]) < 2 else None)
-            if impl != m:
+            nohandler = "btn = Button(7)\n" in src          # re-declared without a handler (the model and the host emulation below assume one)
+            if impl != m and not nohandler:
                 ctx.tie_diff("tie S_c button (Fw.Button vs compiled ButtonPoll)", {**replay, "request": req}, m, impl)
             # property monitors
             if (not in_loop) and len(setup_reads) != 1:
@@ -197,6 +220,8 @@ def run(ctx: Ctx) -> int:
                 # for a button declared in the loop the signal before the first pass is the power-up level = sig[0]
                 want_click = bool(s) and not bool(prev)
                 rising = bool(s) and not bool(true_prev if true_prev is not None else s)
+                if "btn = Button(7)\n" in src:
+                    rising = False          # re-declared without a handler: nothing to call
                 if p["click"] != (1 if rising else 0):
                     key = "button:startup-click-loop-declared" if (in_loop and k == 0 and p["click"] == 1) else "button:click-not-rising-edge"
                     ctx.fail(key, f"pass {k}: handler ran {p['click']} time(s); sample {s}, previous level {true_prev if true_prev is not None else s}", replay)
@@ -204,7 +229,7 @@ def run(ctx: Ctx) -> int:
                     ctx.fail("button:is_pressed-not-sample", f"pass {k}: is_pressed() returned {p['vals']} for sample {s}", replay)
                 prev = s
             # host agreement when the signal starts released
-            if not in_loop and sig[0] == 0:
+            if not in_loop and sig[0] == 0 and not nohandler:
                 it = iter(sig[1:])
                 clicks = []
                 hb = sensors.Button(7, on_click=lambda: clicks.append(1), state_provider=lambda: bool(next(it)))
